@@ -6,10 +6,12 @@ UNITS = []
 RNG_STUBS = ["rng_any_u32/u64/fill: ChaCha8 core replaced by an arbitrary word stream (superset of every seed)"]
 
 
-def H(name, file, fam, props, tier, bound, stubs=(), funcs=(), native=True, cost=1):
-    """One Kani proof harness.  tier: 'quick' (run in both tiers) or 'thorough' (thorough tier only)."""
+def H(name, file, fam, props, tier, bound, stubs=(), funcs=(), native=True, cost=1, thorough_only_for=()):
+    """One Kani proof harness.  tier: 'quick' (run in both tiers) or 'thorough' (thorough tier only);
+    thorough_only_for: properties for which a quick unit is nevertheless run in the thorough tier only."""
     UNITS.append(dict(kind="kani", name=name, file=file, fam=fam, props=list(props), tier=tier, bound=bound,
-                      stubs=list(stubs), funcs=list(funcs), native=native, cost=cost))
+                      stubs=list(stubs), funcs=list(funcs), native=native, cost=cost,
+                      thorough_only_for=list(thorough_only_for)))
 
 
 # ---------------------------------------------------------------------------------------------------
@@ -124,9 +126,17 @@ STEP_STUBS = HEAP_STUBS + [
 _ALPH = "all 18 StackObject variants per slot, one optional DUP-style alias pair, all flag values, memo size m symbolic"
 for i in _gi.guard_instances():
     if i["macro"] == "guard_h":
-        props = ["C01", "C03", "C09", "C10", "C02"] if i["opname"] in ("PUT", "BINPUT", "LONG_BINPUT", "MEMOIZE", "GET", "BINGET", "LONG_BINGET") else ["C01", "C03", "C09", "C10"]
+        props = ["C01", "C03", "C09"]
+        if i["opname"] in ("PUT", "BINPUT", "LONG_BINPUT", "MEMOIZE", "GET", "BINGET", "LONG_BINGET"):
+            props.append("C02")
+        if i["opname"] in ("EXT1", "EXT2", "EXT4", "NEXT_BUFFER", "READONLY_BUFFER"):
+            props.append("C10")
+        if i["opname"] in ("FRAME", "PROTO", "STOP"):
+            props += ["C04", "C06", "C05"]
+        if i["opname"] == "NONE":
+            props.append("C11")
         H(i["name"], "guard.rs", "GUARD", props, i["tier"],
-          "%s at stack depth %d: %s (m <= 300)" % (i["opname"], i["n"], _ALPH), stubs=HEAP_STUBS,
+          "%s at stack depth %d: %s (m <= 300)" % (i["opname"], i["n"], _ALPH), stubs=HEAP_STUBS, thorough_only_for=["C09"],
           funcs=["Generator::can_emit", "Generator::{peek,peek_at,has_mark,is_*_at,is_*_at_mark,count_items_to_mark,is_callable_above_mark}"],
           cost=1 + i["n"])
     else:
@@ -135,16 +145,109 @@ for i in _gi.guard_instances():
           stubs=HEAP_STUBS, funcs=["Generator::can_emit"], cost=1 + i["n"])
 for i in _gi.step_instances():
     memo = i["opname"] in ("PUT", "BINPUT", "LONG_BINPUT", "MEMOIZE", "GET", "BINGET", "LONG_BINGET")
-    H(i["name"], "step.rs", "STEP", ["C17", "C01", "C03", "C09"] + (["C02"] if memo else []), i["tier"],
+    borrow = i["opname"] in ("APPEND", "APPENDS", "SETITEM", "SETITEMS", "ADDITEMS", "BUILD")
+    H(i["name"], "step.rs", "STEP", ["C17", "C01", "C03", "C09"] + (["C02"] if memo else []) + (["C11"] if i["n"] <= 1 else []), i["tier"],
       "%s from every state of depth %d in which can_emit holds: %s (m <= 4); well-formed argument bytes (%s)"
       % (i["opname"], i["n"], _ALPH, i["arg"]), stubs=STEP_STUBS,
-      funcs=["Generator::process_stack_ops(%s)" % i["opname"], "Generator::{push,pop,peek}", "Stack::{push,pop}"], cost=2 + 2 * i["n"])
+      funcs=["Generator::process_stack_ops(%s)" % i["opname"], "Generator::{push,pop,peek}", "Stack::{push,pop}"], cost=2 + 2 * i["n"],
+      thorough_only_for=[] if borrow else ["C09", "C11"])
+
+# ---------------------------------------------------------------------------------------------------
+# EMIT — emit_and_process per opcode, process_stack_ops replaced by a recorder
+EMIT_STUBS = HEAP_STUBS + [
+    "c_pso: Generator::process_stack_ops is a recorder (opcode + argument bytes); the harness asserts it was called exactly once with the "
+    "emitted opcode and exactly the emitted argument (ties layer L2 to STEP)",
+    "module_contract: Generator::get_random_module returns \"m\\na\\n\" with one printable non-backslash ASCII character per name (assumed; "
+    "backed by the data scan of data/stdlib_complete.txt)"]
+for i in _gi.emit_instances():
+    o = i["opname"]
+    props = ["C04", "C09", "C11", "C17"]
+    if i["mutk"] != 9:
+        props += ["C05", "C01"]
+    if o in ("PUT", "BINPUT", "LONG_BINPUT"):
+        props.append("C02")
+    props.append("C10")
+    if i["mutk"] in (8, 9):
+        props += ["C06", "C16"]
+    st = list(EMIT_STUBS)
+    for e in i["extra"]:
+        if "fmt::format" in e:
+            st.append("fmt_float_line: alloc::fmt::format returns an arbitrary one-digit float literal line (FLOAT arm only; Display for f64 is outside the claim)")
+        if "str::replace" in e:
+            st.append("str_replace_char: str::replace on the empty string only")
+    H(i["name"], "emit.rs", "EMIT", props, i["tier"], "%s: %s; memo size m <= 70000; rate in [0,1]; flags symbolic" % (o, i["bound"]),
+      stubs=st, funcs=["Generator::emit_and_process(%s)" % o, "Generator::{emit_int,emit_string,emit_bytes,emit_global,emit_opcode,mutate_*,create_snapshot,post_process_emission}"],
+      cost=3 if i["tier"] == "quick" else 8, thorough_only_for=["C01", "C09", "C17", "C11"] if o not in ("NONE", "APPEND", "BINBYTES", "PUT") else [])
+
+# ---------------------------------------------------------------------------------------------------
+# TABLE
+H("table_as_u8_matches_cpython", "table.rs", "TABLE", ["C04", "C05", "C12"], "quick", "all 68 opcode kinds (symbolic index)",
+  funcs=["OpcodeKind::as_u8"])
+for pp in range(6):
+    H("table_sound_p%d" % pp, "table.rs", "TABLE", ["C05", "C12"], "quick",
+      "protocol %d: every entry (symbolic index) introduced in protocol <= P; no entry twice (symbolic index pair)" % pp, funcs=["PICKLE_OPCODES"])
+    H("table_complete_p%d" % pp, "table.rs", "TABLE", ["C12", "C05", "C11"], "quick",
+      "protocol %d: every CPython opcode with proto <= P (symbolic index) is listed" % pp, funcs=["PICKLE_OPCODES"])
+
+# ---------------------------------------------------------------------------------------------------
+# MUT(contract), POST — C16
+MUTC = [("bitflip_int", "BitFlipMutator::mutate_int: exactly one bit differs"), ("bitflip_long", "BitFlipMutator::mutate_long: exactly one bit differs"),
+        ("boundary_int", "BoundaryMutator::mutate_int: one of 0,-1,1,MAX,MIN"), ("boundary_long", "BoundaryMutator::mutate_long"),
+        ("boundary_float", "BoundaryMutator::mutate_float: one of the 8 listed constants (NaN by is_nan)"),
+        ("offbyone_int", "OffByOneMutator::mutate_int: wrapping +-1"), ("offbyone_long", "OffByOneMutator::mutate_long: wrapping +-1"),
+        ("offbyone_memo", "OffByOneMutator::mutate_memo_index: saturating +-1"), ("memoidx_safe", "MemoIndexMutator(safe): |delta| <= 1 saturating"),
+        ("memoidx_unsafe", "MemoIndexMutator(unsafe): < 1000")]
+for site, what in MUTC:
+    H("mutc_%s_arb" % site, "mutc.rs", "MUT(contract)", ["C16", "C09"], "quick",
+      what + "; every argument value; rate symbolic in [0,1]; fuzzer bytes 0..24", funcs=[what.split(":")[0]])
+    H("mutc_%s_rng" % site, "mutc.rs", "MUT(contract)", ["C16", "C09"], "quick",
+      what + "; every argument value; rate symbolic in [0,1]; all PRNG word streams", stubs=RNG_STUBS, funcs=[what.split(":")[0]])
+for L in range(4):
+    H("mutc_character_bytes_l%d" % L, "mutc.rs", "MUT(contract)", ["C16", "C09"], "quick",
+      "CharacterMutator::mutate_bytes on every byte string of length %d: same length, <= 1 position changed, None on empty; rate symbolic; fuzzer bytes 0..20" % L,
+      funcs=["CharacterMutator::mutate_bytes"], cost=2)
+    H("mutc_stringlen_bytes_l%d" % L, "mutc.rs", "MUT(contract)", ["C16", "C09"], "quick" if L == 2 else "thorough",
+      "StringLengthMutator::mutate_bytes on every byte string of length %d: prefix | +1..9 items | doubled; rate symbolic; fuzzer bytes 0..20" % L,
+      funcs=["StringLengthMutator::mutate_bytes"], cost=6)
+H("mutc_character_string_empty_arb", "mutc.rs", "MUT(contract)", ["C16", "C09"], "quick",
+  "CharacterMutator::mutate_string on the empty string (String-typed methods on non-empty strings are outside Kani's reach)",
+  funcs=["CharacterMutator::mutate_string"])
+for n, tier, b, cost in [("post_tc_safe_d1", "quick", "safe-mode TypeConfusion on a 1-byte emission (any opcode byte): does nothing", 1),
+                         ("post_tc_unsafe_d0", "quick", "unsafe TypeConfusion with an empty emission: does nothing", 1),
+                         ("post_tc_unsafe_d1", "thorough", "unsafe TypeConfusion on a 1-byte emission with an arbitrary opcode byte", 9),
+                         ("post_tc_unsafe_d3", "thorough", "unsafe TypeConfusion on a 3-byte emission with arbitrary bytes", 9)]:
+    H(n, "mutc.rs", "POST", ["C16", "C06", "C10", "C04", "C15", "C09"], tier,
+      b + "; rate symbolic in [0,1]; fuzzer bytes 0..24; earlier output untouched, replacement = exactly one value-pushing lexeme of another kind",
+      funcs=["TypeConfusionMutator::post_process", "TypeConfusionMutator::{opcode_to_type,choose_wrong_type,generate_opcode_for_type}"], cost=cost)
+
+# ---------------------------------------------------------------------------------------------------
+# non-Kani units: ESC (SMT encoding of the escaping chains) and syntactic side conditions of stubs/assumptions
+def U(kind, name, fam, props, tier, bound, **kw):
+    d = dict(kind=kind, name=name, file="esc", fam=fam, props=list(props), tier=tier, bound=bound, stubs=[], funcs=[], cost=1,
+             thorough_only_for=[])
+    d.update(kw)
+    UNITS.append(d)
+
+
+U("esc", "esc_string_chain", "ESC", ["C04", "C05"], "quick",
+  "STRING arm: every input string of length 0..6 (thorough: 0..8) over bytes 0x00..0x7f; chain parsed from emission.rs; z3 5.1 and cvc5 must agree",
+  arm="String", funcs=["emit_string: String arm `.replace` chain + format!"],
+  stubs=["str::replace(char, &str) is per-character replacement (std's documented contract); translator validated against the compiled code on ~250 strings per run"])
+U("esc", "esc_unicode_chain", "ESC", ["C04", "C05"], "quick",
+  "UNICODE arm: every input string of length 0..6 (thorough: 0..8) over printable ASCII 0x20..0x7e (assumption A2)",
+  arm="Unicode", funcs=["emit_string: Unicode arm `.replace` chain + format!"],
+  stubs=["A2: strings reaching emit_string's match are printable ASCII (gen_ascii_char: ENT; Character/StringLength additions by reading)"])
+U("side", "side_a1_payload_free", "SIDE", ["C01", "C03", "C17"], "quick",
+  "syntactic: no guard in validation.rs/utils.rs binds a StackObject payload; effect arms bind payloads only at the listed container sites")
+U("side", "side_replace_char_patterns", "SIDE", ["C04"], "quick", "syntactic: every .replace( in src/generator has a char-literal pattern")
+U("side", "data_stdlib_scan", "SIDE", ["C04", "C05"], "quick",
+  "data: every line of data/stdlib_complete.txt is non-empty printable backslash-free ASCII with a non-empty module part (backs module_contract)")
 
 
 def units_for(prop, tier):
     out = []
     for u in UNITS:
-        if prop in u["props"] and (u["tier"] == "quick" or tier == "thorough"):
+        if prop in u["props"] and (tier == "thorough" or (u["tier"] == "quick" and prop not in u.get("thorough_only_for", ()))):
             out.append(u)
     return out
 
